@@ -15,3 +15,7 @@ UNITS += [VIO.unit_reader_init(), VIO.unit_validate_rows()]
 UNITS += [VIO.unit_raw_rows().also("C07"), APP.unit_app_init()]
 from contracts import rowio_delim as RD, rowio_fixed as FX
 UNITS += [RD.unit_delimited_rows().also("C07"), FX.unit_fixed_rows().also("C07")]
+from contracts import data as D
+UNITS += [D.unit_validate().also("C07"), D.unit_dataformat_init().also("C07")]
+from props import _groups as _G
+UNITS = _G.with_groups(PROPERTY, UNITS, _G.READERS, _G.VALIDATION, _G.CHECKS)
